@@ -212,6 +212,7 @@ def write_evidence(res: PropResult, meta: dict, repo: Repo, extra: Optional[dict
         "modules_parsed": len(repo.modules),
         "functions_indexed": sum(len(m.functions) for m in repo.modules.values()),
         "repo_root": str(repo.root),
+        "alpha_normalised_functions": sum(len(getattr(m, "alpha_normalised", [])) for m in repo.modules.values()),
         "known_findings_matched": [
             {"rule": h["finding"].rule, "key": h["finding"].key, "id": h["known"].get("id", "")} for h in res.known_hits
         ],
